@@ -79,6 +79,13 @@ func cmdGen(args []string) {
 				die("gen: no generator for %s", *prop)
 			}
 		}
+		// time passes, now and then, between two messages of a session
+		if steps, ok := b["steps"].([]any); ok && len(steps) > 2 && g.chance(0.3) {
+			pos := 1 + g.rng.Intn(len(steps)-1)
+			if prev := run.AsM(steps[pos-1]); !run.B(prev, "nowait") && !run.B(prev, "glue") {
+				b["steps"] = append(steps[:pos:pos], append([]any{M{"k": "elapse"}}, steps[pos:]...)...)
+			}
+		}
 		j, _ := json.Marshal(b)
 		w.Write(j)
 		w.WriteByte('\n')
